@@ -3,6 +3,7 @@ package j5convert
 import (
 	"errors"
 	"fmt"
+	"math"
 	"unicode"
 
 	"buf.build/gen/go/bufbuild/protovalidate/protocolbuffers/go/buf/validate"
@@ -472,6 +473,13 @@ func buildField(ww *conversionVisitor, node sourcewalk.FieldNode) (*descriptorpb
 				return nil, fmt.Errorf("integer rules: exclusive maximum requires maximum to be set")
 			}
 
+			if err := checkIntegerBound(st.Integer.Format, "minimum", st.Integer.Rules.Minimum); err != nil {
+				return nil, err
+			}
+			if err := checkIntegerBound(st.Integer.Format, "maximum", st.Integer.Rules.Maximum); err != nil {
+				return nil, err
+			}
+
 			rules := &validate.FieldConstraints{}
 
 			switch st.Integer.Format {
@@ -799,6 +807,29 @@ func buildField(ww *conversionVisitor, node sourcewalk.FieldNode) (*descriptorpb
 		return nil, fmt.Errorf("unknown schema type %T", st)
 	}
 
+}
+
+// checkIntegerBound rejects a bound that the field's integer format cannot
+// hold: converting it would silently wrap to a different number.
+func checkIntegerBound(format schema_j5pb.IntegerField_Format, name string, bound *int64) error {
+	if bound == nil {
+		return nil
+	}
+	var lo, hi int64
+	switch format {
+	case schema_j5pb.IntegerField_FORMAT_INT32:
+		lo, hi = math.MinInt32, math.MaxInt32
+	case schema_j5pb.IntegerField_FORMAT_UINT32:
+		lo, hi = 0, math.MaxUint32
+	case schema_j5pb.IntegerField_FORMAT_UINT64:
+		lo, hi = 0, math.MaxInt64
+	default:
+		return nil
+	}
+	if *bound < lo || *bound > hi {
+		return fmt.Errorf("integer rules: %s %d is out of range for %s", name, *bound, format)
+	}
+	return nil
 }
 
 // Copies the J5 extension object to the equivalent protoreflect extension type
